@@ -1,6 +1,7 @@
 SPECIFICATION FairSpec
 CONSTANTS MaxN = 2
           WrapperConsumes = FALSE
+          ReleaseWakesWaiter = TRUE
 INVARIANT TypeOK
 INVARIANT C07_NeverSwallowed
 PROPERTY C07_Answered
